@@ -219,6 +219,16 @@ func (b *Blob) Set(src blob.Blob, destStart int64) (n int, err error) {
 		return 0, fmt.Errorf("Offset out of bounds: %d", destStart)
 	}
 
+	if max := int64(b.Len()) - destStart; max < 0 {
+		return 0, fmt.Errorf("Offset out of bounds: %d", destStart)
+	} else if int64(src.Len()) > max {
+		// copy only what fits, like blob.Bytes does (Uint8Array.set throws instead)
+		src, err = blob.View(src, 0, max)
+		if err != nil {
+			return 0, err
+		}
+	}
+
 	bValue := safejs.Safe(b.JSValue())
 	srcValue := safejs.Safe(FromBlob(src).JSValue())
 	_, err = bValue.Call("set", srcValue, destStart)
